@@ -57,6 +57,10 @@ CLAIMS = {
    text="20 URL syntax classes x 5 (quick) / 200 (thorough) concrete instances, incl. opaque URLs, userinfo, IPv6, parse errors and random bytes, are posted to the open endpoint of the real shim; every address gorilla's DefaultDialer is asked to connect to is recorded and must be the configured backend; on success the backend must have seen exactly the supplied path and query; requests outside the shim prefix must reach the wrapped handler untouched.",
    note="Trusted: TLC, the recording NetDialContext (refuses foreign addresses, so a foreign dial is observed without traffic). URL classes are finite.",
    design="6 C13"),
+ "C14": dict(engine="Inject", technique="TLA+ spec Inject (decision model of banner/shim-script injection over abstract request/response classes, lemmas checked by TLC) + class domains exported by TLC, concretised and run through the real banner.Proxy + websockets.Proxy + ReverseProxy(ShimBody) chain + TLC trace validation (InjectTrace, operator InjectOK)",
+   text="Each-class sweep plus seeded random combinations (511 quick / 4000+ thorough of a 3.5 M class product) over method, Accept, Sec-Fetch headers, Referer, status, Content-Type, Content-Disposition, body shape (position/number/case of <head>, relative to the 1024-byte first read), backend write segmentation and banner/shim switches; the harness classifies what came out (same / script inserted once after the first <head> / banner frame / other, end-to-end headers unchanged, frame embeds URL + no-store + sameorigin) and the TLA+ operator InjectOK decides whether that alteration is allowed for the case.",
+   note="Trusted: TLC, the harness' classification of the observed body (byte comparison against the original and against the original with ShimBody's own script spliced in). Content-Types that merely mention html are not judged.",
+   design="6 C14"),
  "C01": dict(engine="Relay", technique="TLA+ spec Relay checked by TLC (exhaustive interleavings, liveness, IdCollision attack) + TLC trace validation (RelayTrace) of recorded executions of the real proxy/agent binaries, incl. -race builds",
    text="Bounded-exhaustive model checking of the proxy/agent relay design (all interleavings of 3 requests, 2-3 pollers, faults) plus conformance: every hook/observable event of bursts of up to 64 concurrent clients through the real binaries must be a behaviour of the specification, with the correlation invariants evaluated at every step.",
    note="Trusted: TLC, the token projection of the harness backend/clients, hook placement (receiver side of channel rendezvous). Bounds: 3 requests in the model, <=64 concurrent clients per burst in the runs. Race-detector reports count only with both stacks in repository code.",
